@@ -1,11 +1,13 @@
 // @unit crate=fibre file=channels/src/spmc/topic/mailbox.rs
 // @needs fibre/stubs.rs
+// @needs fibre/vshim.rs
+// @swap from="use std::collections::VecDeque;" to="#[cfg(kani)] use crate::verif_k_vshim::VecDeque; #[cfg(not(kani))] use std::collections::VecDeque;"
 // Step contracts for the topic mailbox (everything under one parking_lot::Mutex): the per-receiver buffer of the
 // topic pub/sub channel.  View: the VecDeque contents, oldest first.  I-mbox: len <= capacity.
-// MEASURED LIMIT: as soon as VecDeque::push_back is reachable (any non-empty buffer, any deliver) CBMC's
-// propositional reduction exceeds 16 GB within a minute (u8 and u64 payloads alike), so only the EMPTY-buffer
-// instances of the steps below are registered as obligations; the deliver contract (drop-newest only when full,
-// FIFO) is written down but cannot be discharged.  C08 is therefore not claimed.
+// MEASURED LIMIT: with std's VecDeque, as soon as push_back is reachable (any non-empty buffer, any deliver) CBMC's
+// propositional reduction exceeds 16 GB within a minute (u8 and u64 payloads alike).  The buffer type is therefore
+// swapped, under cfg(kani) only, for the Vec-backed stand-in of vshim.rs (an executable statement of the deque's
+// assumed contract); the mailbox code itself is untouched.
 // Only Async waiters are constructed (a `Thread` handle cannot be created under Kani; stated).
 use super::*;
 use crate::verif_k_stubs::*;
@@ -88,7 +90,7 @@ fn step_try_recv(cap: usize) {
   let (disc, waiting, dropped, _) = flags(&p.shared);
   assert!(disc == s.disc && waiting == s.waiting && dropped == s.dropped && wakes(0) == 0);
   match r {
-    Ok(y) => { assert!(s.n > 0 && y == s.items[0] && n2 == s.n - 1); let mut i = 0; while i + 1 < MAXN { if i + 1 < s.n { assert!(v[i] == s.items[i + 1]); } i += 1; } /* not coverable: only empty-buffer instances are registered */ }
+    Ok(y) => { assert!(s.n > 0 && y == s.items[0] && n2 == s.n - 1); let mut i = 0; while i + 1 < MAXN { if i + 1 < s.n { assert!(v[i] == s.items[i + 1]); } i += 1; } kani::cover!(true); }
     Err(TryRecvError::Disconnected) => { assert!(s.n == 0 && s.disc && n2 == 0); kani::cover!(true); }
     Err(TryRecvError::Empty) => { assert!(s.n == 0 && !s.disc && n2 == 0); kani::cover!(true); }
   }
@@ -109,14 +111,14 @@ fn step_poll(cap: usize) {
   let (disc, waiting, dropped, _) = flags(&p.shared);
   assert!(disc == s.disc && dropped == s.dropped && wakes(0) == 0 && wakes(1) == 0);
   match r {
-    Poll::Ready(Ok(y)) => { assert!(s.n > 0 && y == s.items[0] && n2 == s.n - 1); /* not coverable: only empty-buffer instances are registered */ }
+    Poll::Ready(Ok(y)) => { assert!(s.n > 0 && y == s.items[0] && n2 == s.n - 1); kani::cover!(true); }
     Poll::Ready(Err(RecvError::Disconnected)) => { assert!(s.n == 0 && s.disc); kani::cover!(true); }
     Poll::Pending => {
       assert!(s.n == 0 && !s.disc && waiting);
       let ok = match &p.shared.internal.lock().consumer_waiter { Some(Waiter::Async(k)) => k.will_wake(&w), _ => false };
       assert!(ok, "Pending but the registered waker is not mine");
-      // ... and a disconnect wakes it (a delivery would too, but VecDeque::push_back is out of CBMC's reach here)
-      p.disconnect();
+      // ... and the next delivery wakes it
+      p.deliver(7);
       assert!(wakes(1) == 1 && wakes(0) == 0);
       kani::cover!(true);
     }
@@ -146,34 +148,154 @@ fn step_disconnect(cap: usize, by_drop: bool) {
   kani::cover!(true, "END");
 }
 
-// @obligation id=mbox.try_recv.empty props=C04 kind=step tier=quick bound="capacity 2, EMPTY buffer, is_disconnected any, async consumer registered or not, dropped_count any"
+// @obligation id=mbox.deliver.cap1n0 props=C08 kind=step tier=quick bound="capacity 1, 0 buffered value(s) (any u8), is_disconnected any, async consumer registered or not, dropped_count any; buffer type = Vec-backed VecDeque stand-in"
 #[kani::proof]
 #[kani::stub(std::thread::current::current, crate::verif_k_stubs::stub_thread_current)]
 #[kani::stub(parking_lot::RawMutex::lock_slow, crate::verif_k_stubs::stub_lock_slow)]
 #[kani::stub(parking_lot::RawMutex::unlock_slow, crate::verif_k_stubs::stub_unlock_slow)]
 #[kani::unwind(6)]
-fn ob_mbox_try_recv_empty() { unsafe { FILL = 0; } step_try_recv(2); }
+fn ob_mbox_deliver_cap1n0() { unsafe { FILL = 0; } step_deliver(1); }
 
-// @obligation id=mbox.poll.empty props=C06,C04 kind=step tier=quick bound="capacity 2, EMPTY buffer, is_disconnected any, async consumer registered or not, dropped_count any; poll with a different waker, then disconnect"
+// @obligation id=mbox.try_recv.cap1n0 props=C08,C04 kind=step tier=quick bound="capacity 1, 0 buffered value(s) (any u8), is_disconnected any, async consumer registered or not, dropped_count any; buffer type = Vec-backed VecDeque stand-in"
 #[kani::proof]
 #[kani::stub(std::thread::current::current, crate::verif_k_stubs::stub_thread_current)]
 #[kani::stub(parking_lot::RawMutex::lock_slow, crate::verif_k_stubs::stub_lock_slow)]
 #[kani::stub(parking_lot::RawMutex::unlock_slow, crate::verif_k_stubs::stub_unlock_slow)]
 #[kani::unwind(6)]
-fn ob_mbox_poll_empty() { unsafe { FILL = 0; } step_poll(2); }
+fn ob_mbox_try_recv_cap1n0() { unsafe { FILL = 0; } step_try_recv(1); }
 
-// @obligation id=mbox.disconnect.empty props=C04,C06 kind=step tier=quick bound="capacity 2, EMPTY buffer, is_disconnected any, async consumer registered or not, dropped_count any; disconnect twice"
+// @obligation id=mbox.poll.cap1n0 props=C08,C06 kind=step tier=quick bound="capacity 1, 0 buffered value(s) (any u8), is_disconnected any, async consumer registered or not, dropped_count any; buffer type = Vec-backed VecDeque stand-in; poll with a different waker"
 #[kani::proof]
 #[kani::stub(std::thread::current::current, crate::verif_k_stubs::stub_thread_current)]
 #[kani::stub(parking_lot::RawMutex::lock_slow, crate::verif_k_stubs::stub_lock_slow)]
 #[kani::stub(parking_lot::RawMutex::unlock_slow, crate::verif_k_stubs::stub_unlock_slow)]
 #[kani::unwind(6)]
-fn ob_mbox_disconnect_empty() { unsafe { FILL = 0; } step_disconnect(2, false); }
+fn ob_mbox_poll_cap1n0() { unsafe { FILL = 0; } step_poll(1); }
 
-// @obligation id=mbox.drop_producer.empty props=C04,C06 kind=step tier=quick bound="capacity 2, EMPTY buffer, is_disconnected any, async consumer registered or not, dropped_count any; producer dropped"
+// @obligation id=mbox.deliver.cap1n1 props=C08 kind=step tier=quick bound="capacity 1, 1 buffered value(s) (any u8), is_disconnected any, async consumer registered or not, dropped_count any; buffer type = Vec-backed VecDeque stand-in"
 #[kani::proof]
 #[kani::stub(std::thread::current::current, crate::verif_k_stubs::stub_thread_current)]
 #[kani::stub(parking_lot::RawMutex::lock_slow, crate::verif_k_stubs::stub_lock_slow)]
 #[kani::stub(parking_lot::RawMutex::unlock_slow, crate::verif_k_stubs::stub_unlock_slow)]
 #[kani::unwind(6)]
-fn ob_mbox_drop_producer_empty() { unsafe { FILL = 0; } step_disconnect(2, true); }
+fn ob_mbox_deliver_cap1n1() { unsafe { FILL = 1; } step_deliver(1); }
+
+// @obligation id=mbox.try_recv.cap1n1 props=C08,C04 kind=step tier=quick bound="capacity 1, 1 buffered value(s) (any u8), is_disconnected any, async consumer registered or not, dropped_count any; buffer type = Vec-backed VecDeque stand-in"
+#[kani::proof]
+#[kani::stub(std::thread::current::current, crate::verif_k_stubs::stub_thread_current)]
+#[kani::stub(parking_lot::RawMutex::lock_slow, crate::verif_k_stubs::stub_lock_slow)]
+#[kani::stub(parking_lot::RawMutex::unlock_slow, crate::verif_k_stubs::stub_unlock_slow)]
+#[kani::unwind(6)]
+fn ob_mbox_try_recv_cap1n1() { unsafe { FILL = 1; } step_try_recv(1); }
+
+// @obligation id=mbox.poll.cap1n1 props=C08,C06 kind=step tier=quick bound="capacity 1, 1 buffered value(s) (any u8), is_disconnected any, async consumer registered or not, dropped_count any; buffer type = Vec-backed VecDeque stand-in; poll with a different waker"
+#[kani::proof]
+#[kani::stub(std::thread::current::current, crate::verif_k_stubs::stub_thread_current)]
+#[kani::stub(parking_lot::RawMutex::lock_slow, crate::verif_k_stubs::stub_lock_slow)]
+#[kani::stub(parking_lot::RawMutex::unlock_slow, crate::verif_k_stubs::stub_unlock_slow)]
+#[kani::unwind(6)]
+fn ob_mbox_poll_cap1n1() { unsafe { FILL = 1; } step_poll(1); }
+
+// @obligation id=mbox.deliver.cap2n0 props=C08 kind=step tier=quick bound="capacity 2, 0 buffered value(s) (any u8), is_disconnected any, async consumer registered or not, dropped_count any; buffer type = Vec-backed VecDeque stand-in"
+#[kani::proof]
+#[kani::stub(std::thread::current::current, crate::verif_k_stubs::stub_thread_current)]
+#[kani::stub(parking_lot::RawMutex::lock_slow, crate::verif_k_stubs::stub_lock_slow)]
+#[kani::stub(parking_lot::RawMutex::unlock_slow, crate::verif_k_stubs::stub_unlock_slow)]
+#[kani::unwind(6)]
+fn ob_mbox_deliver_cap2n0() { unsafe { FILL = 0; } step_deliver(2); }
+
+// @obligation id=mbox.try_recv.cap2n0 props=C08,C04 kind=step tier=quick bound="capacity 2, 0 buffered value(s) (any u8), is_disconnected any, async consumer registered or not, dropped_count any; buffer type = Vec-backed VecDeque stand-in"
+#[kani::proof]
+#[kani::stub(std::thread::current::current, crate::verif_k_stubs::stub_thread_current)]
+#[kani::stub(parking_lot::RawMutex::lock_slow, crate::verif_k_stubs::stub_lock_slow)]
+#[kani::stub(parking_lot::RawMutex::unlock_slow, crate::verif_k_stubs::stub_unlock_slow)]
+#[kani::unwind(6)]
+fn ob_mbox_try_recv_cap2n0() { unsafe { FILL = 0; } step_try_recv(2); }
+
+// @obligation id=mbox.poll.cap2n0 props=C08,C06 kind=step tier=quick bound="capacity 2, 0 buffered value(s) (any u8), is_disconnected any, async consumer registered or not, dropped_count any; buffer type = Vec-backed VecDeque stand-in; poll with a different waker"
+#[kani::proof]
+#[kani::stub(std::thread::current::current, crate::verif_k_stubs::stub_thread_current)]
+#[kani::stub(parking_lot::RawMutex::lock_slow, crate::verif_k_stubs::stub_lock_slow)]
+#[kani::stub(parking_lot::RawMutex::unlock_slow, crate::verif_k_stubs::stub_unlock_slow)]
+#[kani::unwind(6)]
+fn ob_mbox_poll_cap2n0() { unsafe { FILL = 0; } step_poll(2); }
+
+// @obligation id=mbox.deliver.cap2n1 props=C08 kind=step tier=quick bound="capacity 2, 1 buffered value(s) (any u8), is_disconnected any, async consumer registered or not, dropped_count any; buffer type = Vec-backed VecDeque stand-in"
+#[kani::proof]
+#[kani::stub(std::thread::current::current, crate::verif_k_stubs::stub_thread_current)]
+#[kani::stub(parking_lot::RawMutex::lock_slow, crate::verif_k_stubs::stub_lock_slow)]
+#[kani::stub(parking_lot::RawMutex::unlock_slow, crate::verif_k_stubs::stub_unlock_slow)]
+#[kani::unwind(6)]
+fn ob_mbox_deliver_cap2n1() { unsafe { FILL = 1; } step_deliver(2); }
+
+// @obligation id=mbox.try_recv.cap2n1 props=C08,C04 kind=step tier=quick bound="capacity 2, 1 buffered value(s) (any u8), is_disconnected any, async consumer registered or not, dropped_count any; buffer type = Vec-backed VecDeque stand-in"
+#[kani::proof]
+#[kani::stub(std::thread::current::current, crate::verif_k_stubs::stub_thread_current)]
+#[kani::stub(parking_lot::RawMutex::lock_slow, crate::verif_k_stubs::stub_lock_slow)]
+#[kani::stub(parking_lot::RawMutex::unlock_slow, crate::verif_k_stubs::stub_unlock_slow)]
+#[kani::unwind(6)]
+fn ob_mbox_try_recv_cap2n1() { unsafe { FILL = 1; } step_try_recv(2); }
+
+// @obligation id=mbox.poll.cap2n1 props=C08,C06 kind=step tier=quick bound="capacity 2, 1 buffered value(s) (any u8), is_disconnected any, async consumer registered or not, dropped_count any; buffer type = Vec-backed VecDeque stand-in; poll with a different waker"
+#[kani::proof]
+#[kani::stub(std::thread::current::current, crate::verif_k_stubs::stub_thread_current)]
+#[kani::stub(parking_lot::RawMutex::lock_slow, crate::verif_k_stubs::stub_lock_slow)]
+#[kani::stub(parking_lot::RawMutex::unlock_slow, crate::verif_k_stubs::stub_unlock_slow)]
+#[kani::unwind(6)]
+fn ob_mbox_poll_cap2n1() { unsafe { FILL = 1; } step_poll(2); }
+
+// @obligation id=mbox.deliver.cap2n2 props=C08 kind=step tier=quick bound="capacity 2, 2 buffered value(s) (any u8), is_disconnected any, async consumer registered or not, dropped_count any; buffer type = Vec-backed VecDeque stand-in"
+#[kani::proof]
+#[kani::stub(std::thread::current::current, crate::verif_k_stubs::stub_thread_current)]
+#[kani::stub(parking_lot::RawMutex::lock_slow, crate::verif_k_stubs::stub_lock_slow)]
+#[kani::stub(parking_lot::RawMutex::unlock_slow, crate::verif_k_stubs::stub_unlock_slow)]
+#[kani::unwind(6)]
+fn ob_mbox_deliver_cap2n2() { unsafe { FILL = 2; } step_deliver(2); }
+
+// @obligation id=mbox.try_recv.cap2n2 props=C08,C04 kind=step tier=quick bound="capacity 2, 2 buffered value(s) (any u8), is_disconnected any, async consumer registered or not, dropped_count any; buffer type = Vec-backed VecDeque stand-in"
+#[kani::proof]
+#[kani::stub(std::thread::current::current, crate::verif_k_stubs::stub_thread_current)]
+#[kani::stub(parking_lot::RawMutex::lock_slow, crate::verif_k_stubs::stub_lock_slow)]
+#[kani::stub(parking_lot::RawMutex::unlock_slow, crate::verif_k_stubs::stub_unlock_slow)]
+#[kani::unwind(6)]
+fn ob_mbox_try_recv_cap2n2() { unsafe { FILL = 2; } step_try_recv(2); }
+
+// @obligation id=mbox.poll.cap2n2 props=C08,C06 kind=step tier=quick bound="capacity 2, 2 buffered value(s) (any u8), is_disconnected any, async consumer registered or not, dropped_count any; buffer type = Vec-backed VecDeque stand-in; poll with a different waker"
+#[kani::proof]
+#[kani::stub(std::thread::current::current, crate::verif_k_stubs::stub_thread_current)]
+#[kani::stub(parking_lot::RawMutex::lock_slow, crate::verif_k_stubs::stub_lock_slow)]
+#[kani::stub(parking_lot::RawMutex::unlock_slow, crate::verif_k_stubs::stub_unlock_slow)]
+#[kani::unwind(6)]
+fn ob_mbox_poll_cap2n2() { unsafe { FILL = 2; } step_poll(2); }
+
+// @obligation id=mbox.disconnect.cap2n0 props=C08,C04,C06 kind=step tier=quick bound="capacity 2, 0 buffered values, flags any; disconnect twice, then drain; Vec-backed VecDeque stand-in"
+#[kani::proof]
+#[kani::stub(std::thread::current::current, crate::verif_k_stubs::stub_thread_current)]
+#[kani::stub(parking_lot::RawMutex::lock_slow, crate::verif_k_stubs::stub_lock_slow)]
+#[kani::stub(parking_lot::RawMutex::unlock_slow, crate::verif_k_stubs::stub_unlock_slow)]
+#[kani::unwind(6)]
+fn ob_mbox_disconnect_cap2n0() { unsafe { FILL = 0; } step_disconnect(2, false); }
+
+// @obligation id=mbox.drop_producer.cap2n0 props=C08,C04,C06 kind=step tier=quick bound="capacity 2, 0 buffered values, flags any; producer dropped, then drain; Vec-backed VecDeque stand-in"
+#[kani::proof]
+#[kani::stub(std::thread::current::current, crate::verif_k_stubs::stub_thread_current)]
+#[kani::stub(parking_lot::RawMutex::lock_slow, crate::verif_k_stubs::stub_lock_slow)]
+#[kani::stub(parking_lot::RawMutex::unlock_slow, crate::verif_k_stubs::stub_unlock_slow)]
+#[kani::unwind(6)]
+fn ob_mbox_drop_producer_cap2n0() { unsafe { FILL = 0; } step_disconnect(2, true); }
+
+// @obligation id=mbox.disconnect.cap2n2 props=C08,C04,C06 kind=step tier=quick bound="capacity 2, 2 buffered values, flags any; disconnect twice, then drain; Vec-backed VecDeque stand-in"
+#[kani::proof]
+#[kani::stub(std::thread::current::current, crate::verif_k_stubs::stub_thread_current)]
+#[kani::stub(parking_lot::RawMutex::lock_slow, crate::verif_k_stubs::stub_lock_slow)]
+#[kani::stub(parking_lot::RawMutex::unlock_slow, crate::verif_k_stubs::stub_unlock_slow)]
+#[kani::unwind(6)]
+fn ob_mbox_disconnect_cap2n2() { unsafe { FILL = 2; } step_disconnect(2, false); }
+
+// @obligation id=mbox.drop_producer.cap2n2 props=C08,C04,C06 kind=step tier=quick bound="capacity 2, 2 buffered values, flags any; producer dropped, then drain; Vec-backed VecDeque stand-in"
+#[kani::proof]
+#[kani::stub(std::thread::current::current, crate::verif_k_stubs::stub_thread_current)]
+#[kani::stub(parking_lot::RawMutex::lock_slow, crate::verif_k_stubs::stub_lock_slow)]
+#[kani::stub(parking_lot::RawMutex::unlock_slow, crate::verif_k_stubs::stub_unlock_slow)]
+#[kani::unwind(6)]
+fn ob_mbox_drop_producer_cap2n2() { unsafe { FILL = 2; } step_disconnect(2, true); }
